@@ -16,6 +16,6 @@ m['recheck_exit']=int(rc)
 m['recheck_classes']=[l.strip()[:200] for l in open(log, errors='replace') if l.startswith('violation class') or l.startswith('further violation') or l.startswith('HARNESS')]
 json.dump(m,open(p,'w'),indent=1)
 PY
-  echo "$PROP $(basename $D) -> exit $rc: $(grep -E '^violation class' /tmp/recheck.$$ | sed 's/ (.*//' | sed 's/violation class //' | tr '\n' ' ' | cut -c1-200)"
+  echo "$PROP $(basename $D) -> exit $rc: $(grep -a -E '^violation class' /tmp/recheck.$$ | sed 's/ (.*//' | sed 's/violation class //' | tr '\n' ' ' | cut -c1-200)"
   rm -f /tmp/recheck.$$
 done
